@@ -61,13 +61,13 @@ const (
 
 // Node is a value tree node and, through its annotations, a write program.
 type Node struct {
-	Kind    Kind
-	U       uint64  // bool, byte, ints (two's complement), float bits
-	B       []byte  // bin64/128/256, bytes, string payload
-	Elems   []*Node // list
-	Fields  []Field // message, physical write order
-	SFields []*Node // struct fields (scalars, strings, nested structs)
-	RawStruct bool  // struct whose body is known only as raw bytes (B); produced by the reference decoder
+	Kind      Kind
+	U         uint64  // bool, byte, ints (two's complement), float bits
+	B         []byte  // bin64/128/256, bytes, string payload
+	Elems     []*Node // list
+	Fields    []Field // message, physical write order
+	SFields   []*Node // struct fields (scalars, strings, nested structs)
+	RawStruct bool    // struct whose body is known only as raw bytes (B); produced by the reference decoder
 
 	Via       uint8
 	MergeFrom int     // Fields[MergeFrom:MergeTo] come from Copy/Merge of a separately built message
